@@ -152,7 +152,10 @@ def run_shard(spec):
         for k in range(spec["triples"]):
             gen = NBGen(r, exotic=(k % 3 == 0))
             cls = ["minor_diff", "exec_count", None, "same_insert_edit_below", "same_line", None][k % 6]
-            cls, b, l, rm, info, waste = valid_triple(gen, cls=cls, minor=(5 if k % 6 == 5 else None))
+            if k % 12 == 2:
+                # the classes whose decisions use the path-relative actions (clear / remove / take_max / clear_all)
+                cls = r.choice(["retype", "both_rerun", "transient_meta_conflict", "both_rerun", "retype"])
+            cls, b, l, rm, info, waste = valid_triple(gen, cls=cls, minor=(5 if (k % 6 == 5 or cls == "retype") else None))
             if cls is None:
                 continue
             if k % 6 == 5 and b["cells"]:
